@@ -452,8 +452,9 @@ func c09OnPath(c *fw.Case) (o fw.Outcome) {
 		sn := models.Snssai{Sst: int32(r.Intn(256)), Sd: sdString(r)}
 		dnnS := "internet"
 		if r.Intn(2) == 0 {
-			dnnS = string(bytes.Repeat([]byte{byte('a' + r.Intn(26))}, 1+r.Intn(30)))
+			dnnS = string(bytes.Repeat([]byte{byte('a' + r.Intn(26))}, pick(r, 1, 2, 30, 63, 98, 99, 1+r.Intn(99)))) // the IE value (length octet + label) is at most 100 octets
 		}
+		reqType := uint8(pick(r, int(nasMessage.ULNASTransportRequestTypeInitialRequest), 1+r.Intn(5)))
 		wantSn := []byte{byte(sn.Sst)}
 		if sn.Sd != "" {
 			var sd [3]byte
@@ -465,13 +466,13 @@ func c09OnPath(c *fw.Case) (o fw.Outcome) {
 		switch r.Intn(3) {
 		case 0:
 			label, innerType = "ULNASTransport(EstablishmentRequest)", 0xc1
-			b = nasTestpacket.GetUlNasTransport_PduSessionEstablishmentRequest(psi, nasMessage.ULNASTransportRequestTypeInitialRequest, dnnS, &sn)
+			b = nasTestpacket.GetUlNasTransport_PduSessionEstablishmentRequest(psi, reqType, dnnS, &sn)
 		case 1:
 			label, innerType, withSlice = "ULNASTransport(ReleaseRequest)", 0xd1, false
 			b = nasTestpacket.GetUlNasTransport_PduSessionReleaseRequest(psi)
 		default:
 			label, innerType = "ULNASTransport(ReleaseComplete)", 0xd4
-			b = nasTestpacket.GetUlNasTransport_PduSessionReleaseComplete(psi, nasMessage.ULNASTransportRequestTypeInitialRequest, dnnS, &sn)
+			b = nasTestpacket.GetUlNasTransport_PduSessionReleaseComplete(psi, reqType, dnnS, &sn)
 		}
 		exps = func(p *refnas.Parsed) []expect {
 			cont := p.MandByName("PayloadContainer")
@@ -482,8 +483,8 @@ func c09OnPath(c *fw.Case) (o fw.Outcome) {
 			if withSlice {
 				e = append(e, expect{"S-NSSAI (22)", must(p, "SNSSAI"), wantSn})
 				e = append(e, expect{"DNN (25)", must(p, "DNN"), append([]byte{byte(len(dnnS))}, dnnS...)})
-				if v, ok := p.Get("RequestType"); !ok || len(v) != 1 || v[0]&7 != nasMessage.ULNASTransportRequestTypeInitialRequest {
-					e = append(e, expect{"request type (8-)", v, []byte{nasMessage.ULNASTransportRequestTypeInitialRequest}})
+				if v, ok := p.Get("RequestType"); !ok || len(v) != 1 || v[0]&7 != reqType {
+					e = append(e, expect{"request type (8-)", v, []byte{reqType}})
 				}
 			}
 			ip, err := refnas.Parse(cont)
@@ -497,7 +498,7 @@ func c09OnPath(c *fw.Case) (o fw.Outcome) {
 		}
 	case 5: // Service Request
 		label = "ServiceRequest"
-		st := uint8(r.Intn(8))
+		st := uint8(r.Intn(16))
 		b = nasTestpacket.GetServiceRequest(st)
 		exps = func(p *refnas.Parsed) []expect {
 			v := p.MandByName("ServiceTypeAndNgksi")
@@ -515,12 +516,13 @@ func c09OnPath(c *fw.Case) (o fw.Outcome) {
 		suciB := append([]byte{0x01}, rbytes(r, 7+r.Intn(6))...)
 		suci := nasType.MobileIdentity5GS{Len: uint16(len(suciB)), Buffer: suciB}
 		so := uint8(r.Intn(2))
-		b = nasTestpacket.GetDeregistrationRequest(nasMessage.AccessType3GPP, so, 4, suci)
+		at := uint8(1 + r.Intn(3))
+		b = nasTestpacket.GetDeregistrationRequest(at, so, 4, suci)
 		exps = func(p *refnas.Parsed) []expect {
 			v := p.MandByName("NgksiAndDeregistrationType")
 			e := []expect{{"5GS mobile identity", p.MandByName("MobileIdentity5GS"), suciB}}
-			if len(v) != 1 || v[0]&3 != nasMessage.AccessType3GPP || (v[0]>>3)&1 != so {
-				e = append(e, expect{"de-registration type (switch off, access type)", v, []byte{so<<3 | nasMessage.AccessType3GPP}})
+			if len(v) != 1 || v[0]&3 != at || (v[0]>>3)&1 != so {
+				e = append(e, expect{"de-registration type (switch off, access type)", v, []byte{so<<3 | at}})
 			}
 			return e
 		}
